@@ -15,7 +15,7 @@ import json, os, concurrent.futures as cf
 from vlib.common import *
 from checks.C15 import _absorb
 
-NEG = [("SwallowSlotListError", "PinOnlyToSelectedToken"), ("RetrySamePin", "LoginSubmissionsBacked"), ("LeaveOrphan", "NoOrphanKey")]
+NEG = [("SwallowSlotListError", "PinOnlyToSelectedToken"), ("RetrySamePin", "LoginSubmissionsBacked"), ("LeaveOrphan", "NoOrphanKey"), ("WrapResultLost", "NoOrphanKey")]
 
 
 def _shard(vh, so, behs, i, d):
